@@ -22,7 +22,7 @@ func init() {
 		Floor:       map[string]int{"quick": 300, "thorough": 6000},
 		Plan:        c19Plan,
 		Run:         c19Run,
-		Assumptions: []string{"names contain no quote or tab (the FAI text form is read with encoding/csv)", "all lines of a sequence but the last have the same width (well-formed FASTA)"},
+		Assumptions: []string{"names are printable ASCII without blanks (a FASTA name ends at the first blank)", "all lines of a sequence but the last have the same width (well-formed FASTA)"},
 		TimeoutS:    map[string]int{"quick": 900, "thorough": 3400},
 	})
 }
@@ -48,7 +48,13 @@ type faRec struct {
 }
 
 func c19File(rng *rand.Rand) ([]byte, []faRec, string) {
-	const nameChars = "ABCDEFGHIJKLMNOPQRSTUVWXYZabcdefghijklmnopqrstuvwxyz0123456789_.|:-"
+	// printable ASCII without blank: a FASTA name ends at the first blank,
+	// everything else (quotation marks, '#', ',', '>' after the first
+	// character, ...) belongs to it
+	nameChars := "ABCDEFGHIJKLMNOPQRSTUVWXYZabcdefghijklmnopqrstuvwxyz0123456789_.|:-"
+	if rng.Intn(3) == 0 {
+		nameChars += "\"'#,;=()[]{}<>!$%&*+/?@\\^`~"
+	}
 	var buf bytes.Buffer
 	var recs []faRec
 	eol := []string{"\n", "\r\n"}[rng.Intn(2)]
@@ -76,6 +82,11 @@ func c19File(rng *rand.Rand) ([]byte, []faRec, string) {
 		buf.WriteString(eol)
 		width := 1 + rng.Intn(80)
 		var l int
+		long := rng.Intn(40) == 0
+		if long {
+			// an unwrapped sequence: one line of more than 64 KiB
+			width = 66000 + rng.Intn(70000)
+		}
 		switch rng.Intn(5) {
 		case 0:
 			l = 1 + rng.Intn(width) // single line
@@ -83,6 +94,9 @@ func c19File(rng *rand.Rand) ([]byte, []faRec, string) {
 			l = width * (1 + rng.Intn(4)) // last line full
 		default:
 			l = 1 + rng.Intn(300)
+			if long {
+				l = width + rng.Intn(width)
+			}
 		}
 		bases := make([]byte, l)
 		for k := range bases {
